@@ -17,6 +17,10 @@ Driver of C18. Two case kinds (payload, space separated):
   line of a marked statement; result: `pos,line` of the node the thread is suspended on = the
   marked token.
 
+* `B2 <src-hex> <off1> <off2> <both|dis|rm>` — two marked statements; the second break point stays
+  active, is disabled (DisableBreakPoint) or removed (RemoveBreakPoint) before the run; result: the
+  node of every suspension in order (`-` for the deactivated one).
+
 * `U <lo> <hi>` — sweep: unicode.IsSpace / IsControl / IsNumber and utf8.DecodeRune against the
   model's `isSpace` / `isControl` / `isNumber` / `decodeRune` for every code point of the range
   (quick: U+0000–U+2FFF, thorough: all of U+0000–U+111FFF incl. surrogates and out-of-range).
@@ -259,6 +263,17 @@ def sweepCase (lo hi : Nat) : String :=
       + (if d.1 = cp && d.2 = b.length then 8 else 0)
     [hexDigit bits, hexDigit d.2])
 
+/-- `B2` cases: two marked statements, the break point of the second one active (`both`), disabled
+    (`dis`) or removed (`rm`) again: one suspension per active break point, in source order, each on
+    the marked token; `-` for the deactivated one. -/
+def break2Case (src : List Nat) (o1 o2 : Nat) (mode : String) : String :=
+  let a := breakCase src o1
+  let b := breakCase src o2
+  let fa := (a.splitOn "\t").headD a
+  let fb := (b.splitOn "\t").headD b
+  if (a.splitOn "\tkf=").length > 1 || (b.splitOn "\tkf=").length > 1 then a
+  else fa ++ " " ++ (if mode = "both" then fb else "-") ++ "\tnt=1"
+
 def runCase (payload : String) : String :=
   match payload.splitOn " " with
   | ["L", h] => match hexDecode h with
@@ -273,6 +288,9 @@ def runCase (payload : String) : String :=
   | ["U", lo, hi] => match lo.toNat?, hi.toNat? with
     | some lo, some hi => sweepCase lo hi
     | _, _ => "bad-payload"
+  | ["B2", h, o1, o2, mode] => match hexDecode h, o1.toNat?, o2.toNat? with
+    | some src, some a, some b => break2Case src a b mode
+    | _, _, _ => "bad-payload"
   | ["B", h, off] => match hexDecode h, off.toNat? with
     | some src, some o => breakCase src o
     | _, _ => "bad-payload"
